@@ -28,12 +28,19 @@ func VF_C20_Goroutines() {
 	vf.Preemptions(n)
 	for _, f := range []string{"TransactionDatatype).BeginTransaction", "TransactionDatatype).EndTransaction", "TransactionDatatype).unlock",
 		"TransactionDatatype).setTransactionContextAndLock", "TransactionDatatype).SentenceInTx", "TransactionDatatype).DoTransaction",
-		"BaseDatatype).executeLocalBase", "WiredDatatype).DeliverTransaction", "WiredDatatype).ApplyPushPullPack",
+		"BaseDatatype).executeLocalBase", "WiredDatatype).*",
 		"TransactionDatatype).ResetTransaction", "TransactionDatatype).Rollback"} {
 		vf.PreemptIn(dtPkg + f)
 	}
 	c := vfNewCounter()
 	c.SetState(model.StateOfDatatype_SUBSCRIBED)
+	pre := 0
+	if kindB == 3 {
+		// an earlier local operation was pushed; its acknowledgement (checkpoint advancing to
+		// Cseq 1) is what the background sync applies while the other goroutine works
+		_, _ = c.IncreaseBy(1000)
+		pre = 1
+	}
 	vf.Tag("kinds", string(rune('0'+kindA))+string(rune('0'+kindB)))
 	// a foreign operation that may be applied concurrently
 	src := vfNewCounter()
@@ -56,7 +63,7 @@ func VF_C20_Goroutines() {
 			_, _ = c.ReceiveRemoteModelOperations(foreign, false)
 		case 3: // the answer of a background sync that carries no operations (a plain acknowledgement)
 			c.ApplyPushPullPack(&model.PushPullPack{Key: c.GetKey(), DUID: c.GetDUID(), Type: model.TypeOfDatatype_COUNTER,
-				CheckPoint: &model.CheckPoint{Sseq: 0, Cseq: 0}})
+				CheckPoint: &model.CheckPoint{Sseq: uint64(pre), Cseq: uint64(pre)}})
 		case 4: // a transaction whose body fails after one call: all or nothing
 			_ = c.Transaction("t", func(tx CounterInTx) error {
 				_, _ = tx.IncreaseBy(delta)
@@ -87,11 +94,11 @@ func VF_C20_Goroutines() {
 	<-done
 	<-done
 	vf.Reach("both-done")
-	vf.Assert(c.Get() == want, "C20 no update is lost")
-	ops := c.CreatePushPullPack().Operations
+	vf.Assert(c.Get() == want+int32(1000*pre), "C20 no update is lost")
+	ops := c.CreatePushPullPack().Operations // the operations above the (acknowledged) checkpoint
 	vf.Assert(len(ops) == locals, "C20 every issued operation is queued exactly once")
 	for i, op := range ops {
-		vf.Assert(op.ID.Seq == uint64(i+1), "C20/C15 queued operations carry the sequence numbers 1..n in order")
+		vf.Assert(op.ID.Seq == uint64(pre+i+1), "C20/C15 queued operations carry the next sequence numbers in order")
 		if op.OpType == model.TypeOfOperation_TRANSACTION {
 			tx := operations.ModelToOperation(op).(*operations.TransactionOperation)
 			vf.Assert(int(tx.GetNumOfOps()) == 2 && i+1 < len(ops) && ops[i+1].OpType == model.TypeOfOperation_COUNTER_INCREASE,
@@ -100,5 +107,5 @@ func VF_C20_Goroutines() {
 	}
 	// the datatype is still usable (the mutex was released)
 	_, err := c.IncreaseBy(1000)
-	vf.Assert(err == nil && c.Get() == want+1000, "C20 the datatype is usable afterwards")
+	vf.Assert(err == nil && c.Get() == want+int32(1000*pre)+1000, "C20 the datatype is usable afterwards")
 }
